@@ -140,6 +140,16 @@ def run(ctx):
     main = [Z.decl("R", Z.lst(Z.num(0), Z.num(0))), Z.decl("D", Z.dct(["a", "b", "c"], [R, R, R])), Z.decl("DD", Z.var("D")),
             Z.ex(Z.asg(Z.idx(Z.idx(DD, Z.s("a")), Z.num(1)), Z.num(5))), Z.disp(DD, Z.var("D")), Z.ex(Z.mcall(Z.idx(DD, Z.s("b")), "@append", Z.num(6))), Z.disp(DD, Z.idx(DD, Z.s("c"))), Z.ex(Z.num(0))]
     p = Z.prog(main); p["tag"] = "table:dictionary-of-rows"; lprogs.append(p)
+    # 空 is a value like any other: a key / position that holds 空 is stored (read by index, by iteration, counted, displayed), however it got there
+    D, L = Z.var("D"), Z.var("L")
+    for how, mk in (("literal", [Z.decl("D", Z.dct(["a", "b"], [Z.NULL, Z.num(1)]))]), ("key-assignment", [Z.decl("D", Z.dct(["a", "b"], [Z.num(0), Z.num(1)])), Z.ex(Z.asg(Z.idx(D, Z.s("a")), Z.NULL))]),
+                    ("put", [Z.decl("D", Z.dct(["b"], [Z.num(1)])), Z.ex(Z.mcall(D, "@put", Z.s("a"), Z.NULL))]), ("copy", [Z.decl("E", Z.dct(["a", "b"], [Z.NULL, Z.num(1)])), Z.decl("D", Z.var("E"))])):
+        main = json.loads(json.dumps(mk)) + [Z.disp(Z.idx(D, Z.s("a")), Z.idx(D, Z.s("b")), D), Z.iter_(["K", "V"], D, [Z.disp(Z.var("K"), Z.var("V"))]),
+                                             Z.ex(Z.asg(Z.idx(D, Z.s("c")), Z.NULL)), Z.disp(Z.idx(D, Z.s("c")), D), Z.ex(Z.asg(Z.idx(D, Z.s("a")), Z.num(5))), Z.disp(Z.idx(D, Z.s("a")), Z.idx(D, Z.s("c"))), Z.mark("missing-next"), Z.ex(Z.idx(D, Z.s("zz"))), Z.mark("dead")]
+        p = Z.prog(main); p["tag"] = "null-values:dict:" + how; lprogs.append(p)
+    main = [Z.decl("L", Z.lst(Z.NULL, Z.num(1), Z.NULL)), Z.disp(Z.idx(L, Z.num(1)), Z.idx(L, Z.num(2)), Z.idx(L, Z.num(3)), L), Z.ex(Z.asg(Z.idx(L, Z.num(2)), Z.NULL)), Z.ex(Z.mcall(L, "@append", Z.NULL)),
+            Z.disp(L, Z.idx(L, Z.num(4))), Z.iter_(["I", "V"], L, [Z.disp(Z.var("I"), Z.var("V"))]), Z.ex(Z.asg(Z.idx(L, Z.num(1)), Z.num(7))), Z.disp(Z.idx(L, Z.num(1)), Z.idx(L, Z.num(3))), Z.ex(Z.idx(L, Z.num(5))), Z.mark("dead")]
+    p = Z.prog(main); p["tag"] = "null-values:list"; lprogs.append(p)
     lstats, _, _ = Z.run_family(ctx, znh, lprogs, "c12lit")
     # ---- trace validation of long random histories recorded from the real value types
     nh, ln = (30, 500) if ctx.tier == "quick" else (150, 2000)
